@@ -90,6 +90,8 @@ OneSeg(t) == Seg(t, Z, Z, Z, Z, Z, Z, Z)
 PlainType(d) == ~(\E n \in {"SHT_STRTAB", "SHT_SYMTAB", "SHT_DYNSYM", "SHT_SUNW_LDYNSYM", "SHT_SYMTAB_SHNDX", "SHT_SUNW_syminfo",
                              "SHT_GNU_verneed", "SHT_GNU_verdef", "SHT_GNU_versym", "SHT_DYNAMIC", "SHT_HASH", "SHT_GNU_HASH",
                              "SHT_ARM_ATTRIBUTES", "SHT_REL", "SHT_RELA", "SHT_RELR"} : Reg[n] = d)
+AllShtNames == UNION {RegFam["SHT"][f] : f \in DOMAIN RegFam["SHT"]}
+AllPtNames == UNION {RegFam["PT"][f] : f \in DOMAIN RegFam["PT"]}
 SweepMachines == {Code("EM_X86_64"), Code("EM_ARM"), Code("EM_AARCH64"), Code("EM_MIPS"), Code("EM_RISCV"), Code("EM_386")}
 NumVals(cls) == {Z, N(1), W(<<0, 0, 0, 128>>), W(<<255, 255, 255, 255>>)} \cup
                 (IF cls = 64 THEN {W(<<0, 0, 0, 0, 0, 0, 0, 128>>), W(<<255, 255, 255, 255, 255, 255, 255, 255>>)} ELSE {})
@@ -105,8 +107,9 @@ SweepSet ==
   \cup {<<"e_misc", [Base(cl, 40) EXCEPT !.eversion = v, !.eflags = W32(2, 2, 0, 5), !.entry = BigAddr(cl[1])]>> :
            cl \in ClsLe, v \in {Z, N(1), N(2), W32(255, 255, 255, 255)}}
   \* sh_type: every registry code of the machine's overlay, plus range boundaries and unassigned codes
+  \* (the codes of EVERY machine's overlay under each machine: a code another processor names is a raw integer here)
   \cup UNION {{<<"sh_type", [Base(<<64, TRUE>>, m) EXCEPT !.secs = <<OneSec(W(DTrunc(d, 4)))>>]>> :
-                  d \in {x \in RegCodes(ShtNames(m)) \cup Boundary32 : PlainType(x)}} : m \in SweepMachines}
+                  d \in {x \in RegCodes(AllShtNames) \cup Boundary32 : PlainType(x)}} : m \in SweepMachines}
   \cup UNION {{<<"sh_type", [Base(<<32, FALSE>>, m) EXCEPT !.secs = <<OneSec(W(DTrunc(d, 4)))>>]>> :
                   d \in {x \in RegCodes(ShtNames(m)) : PlainType(x)}} : m \in {Code("EM_ARM"), Code("EM_MIPS")}}
   \* section types that call for a specialised object and are not among the writer's section kinds: minimal valid content (zeros: one
@@ -123,7 +126,7 @@ SweepSet ==
                   "SHT_HASH", "SHT_GNU_HASH"}}
   \* p_type likewise
   \cup UNION {{<<"p_type", [Base(<<64, FALSE>>, m) EXCEPT !.segs = <<OneSeg(W(DTrunc(d, 4)))>>]>> :
-                  d \in RegCodes(PtNames(m)) \cup Boundary32} : m \in SweepMachines}
+                  d \in RegCodes(AllPtNames) \cup Boundary32} : m \in SweepMachines}
   \cup UNION {{<<"p_type", [Base(<<32, TRUE>>, m) EXCEPT !.segs = <<OneSeg(W(DTrunc(d, 4)))>>]>> :
                   d \in RegCodes(PtNames(m))} : m \in {Code("EM_ARM"), Code("EM_AARCH64")}}
   \* every numeric section-header field at its boundary values (one field at a time)
